@@ -48,6 +48,7 @@ import (
 	"testing/fstest"
 
 	"github.com/titpetric/vuego"
+	xhtml "golang.org/x/net/html"
 	"pgregory.net/rapid"
 
 	"verif/internal/compose"
@@ -344,6 +345,16 @@ type Case struct {
 	// Tags; see rootOuter). A typed root is also compared with the same case on a map[string]any root.
 	Entry string `json:"entry,omitempty"`
 	Root  string `json:"root,omitempty"`
+	// Further doors (Entry): "file" RenderFile, "string" / "byte" / "reader" the inline renders of
+	// the page text, "view" View(tpl, page, data), "assign" Load + Assign per key,
+	// "vue-nodes-loader" Vue.RenderNodes with NewLoader(fs).LoadFragment(page), "vue-nodes-built"
+	// Vue.RenderNodes with a node tree built in Go (Data set, DataAtom zero).
+	// Reg: how the shorthand tags are registered: "" WithComponents, "manual" RegisterComponent per
+	// tag, "both". Proc: "with" / "register" - the page is rendered a third time with its includes
+	// spelled as custom tags <xinc-TAG …> that a pre-processing NodeProcessor (attached through
+	// WithProcessor / RegisterNodeProcessor) rewrites into <template include>.
+	Reg  string `json:"reg,omitempty"`
+	Proc string `json:"proc,omitempty"`
 	// After: the case is additionally rendered right after a FAILING render of a stale twin of
 	// itself (same templates and names, every value recognisably different, failure injected at
 	// the end of the page) and must meet the model all the same:
@@ -738,35 +749,195 @@ func buildRoot(c Case, root string) (any, bool) {
 func render(c Case, short bool) (string, error) { return renderAs(c, short, c.Root) }
 
 func renderAs(c Case, short bool, root string) (string, error) {
+	spell := ""
+	if short {
+		spell = "short"
+	}
+	return renderX(c, spell, root)
+}
+
+// entries are the public doors a page can come in through.
+var entries = []string{"", "file", "string", "byte", "reader", "view", "assign",
+	"vue-render", "vue-fragment", "vue-nodes-loader", "vue-nodes-built"}
+
+// tagPaths maps every shorthand tag of the case (components and the wrappers in use) to its file.
+func tagPaths(c Case) ([]string, map[string]string) {
+	m := map[string]string{}
+	for _, cp := range c.Comps {
+		m[compTag(cp)] = compPath(cp)
+	}
+	for _, k := range usedWrappers(c) {
+		m[kebab(wrappers[k].name)] = "components/" + wrappers[k].name + ".vuego"
+	}
+	tags := make([]string, 0, len(m))
+	for t := range m {
+		tags = append(tags, t)
+	}
+	sort.Strings(tags)
+	return tags, m
+}
+
+const procPrefix = "xinc-"
+
+// incProc is a pre-processing NodeProcessor in the idiom of docs/nodeprocessor.md: it rewrites
+// the custom tags <xinc-TAG …> in place into <template include="FILE" …> by setting Data and
+// appending the include attribute (the node's DataAtom stays what the parser gave the custom tag).
+type incProc struct{ paths map[string]string }
+
+func (p *incProc) New() vuego.NodeProcessor        { return p }
+func (p *incProc) PostProcess([]*xhtml.Node) error { return nil }
+func (p *incProc) PreProcess(nodes []*xhtml.Node) error {
+	var walk func(n *xhtml.Node)
+	walk = func(n *xhtml.Node) {
+		if n.Type == xhtml.ElementNode {
+			if file, ok := p.paths[strings.TrimPrefix(n.Data, procPrefix)]; ok && strings.HasPrefix(n.Data, procPrefix) {
+				n.Data = "template"
+				n.Attr = append(n.Attr, xhtml.Attribute{Key: "include", Val: file})
+			}
+		}
+		for k := n.FirstChild; k != nil; k = k.NextSibling {
+			walk(k)
+		}
+	}
+	for _, n := range nodes {
+		walk(n)
+	}
+	return nil
+}
+
+// filesFor: spelling "" = <template include>, "short" = shorthand tags, "proc" = the page's
+// includes as custom tags <xinc-TAG …> for incProc (component files keep <template include>).
+func filesFor(c Case, spell string) map[string]string {
+	if spell != "proc" {
+		return files(c, spell == "short")
+	}
+	fl := files(c, false)
+	page := files(c, true)["page.vuego"]
+	tags, _ := tagPaths(c)
+	for _, t := range tags {
+		re := regexp.MustCompile(`<(/?)` + regexp.QuoteMeta(t) + `([\s>])`)
+		page = re.ReplaceAllString(page, "<${1}"+procPrefix+t+"${2}")
+	}
+	fl["page.vuego"] = page
+	return fl
+}
+
+// builtNodes parses text and rebuilds the tree the way Go code constructing nodes by hand would:
+// Type, Data and Attr set, DataAtom left zero.
+func builtNodes(text string) ([]*xhtml.Node, error) {
+	parsed, err := hx.ParseFragment(text)
+	if err != nil {
+		return nil, err
+	}
+	var clone func(n *xhtml.Node) *xhtml.Node
+	clone = func(n *xhtml.Node) *xhtml.Node {
+		out := &xhtml.Node{Type: n.Type, Data: n.Data, Namespace: n.Namespace, Attr: append([]xhtml.Attribute(nil), n.Attr...)}
+		for k := n.FirstChild; k != nil; k = k.NextSibling {
+			out.AppendChild(clone(k))
+		}
+		return out
+	}
+	var out []*xhtml.Node
+	for _, n := range parsed {
+		out = append(out, clone(n))
+	}
+	return out, nil
+}
+
+func renderX(c Case, spell, root string) (string, error) {
 	m := fstest.MapFS{}
-	for k, v := range files(c, short) {
+	fl := filesFor(c, spell)
+	for k, v := range fl {
 		m[k] = &fstest.MapFile{Data: []byte(v)}
 	}
 	data, ok := buildRoot(c, root)
 	if !ok {
 		return "", fmt.Errorf("malformed case: data do not fit root shape %q", root)
 	}
-	var buf bytes.Buffer
-	switch c.Entry {
-	case "vue-render", "vue-fragment":
-		vue := vuego.NewVue(m)
-		if short {
-			vuego.WithComponents()(vue)
+	tags, paths := tagPaths(c)
+	var opts []vuego.LoadOption
+	switch spell {
+	case "short":
+		manual := vuego.LoadOption(func(v *vuego.Vue) {
+			for _, t := range tags {
+				v.RegisterComponent(t, paths[t])
+			}
+		})
+		switch c.Reg {
+		case "manual":
+			opts = append(opts, manual)
+		case "both":
+			opts = append(opts, vuego.WithComponents(), manual)
+		default:
+			opts = append(opts, vuego.WithComponents())
 		}
-		var err error
-		if c.Entry == "vue-render" {
-			err = vue.Render(&buf, "page.vuego", data)
+	case "proc":
+		p := &incProc{paths: paths}
+		if c.Proc == "register" {
+			opts = append(opts, vuego.LoadOption(func(v *vuego.Vue) { v.RegisterNodeProcessor(p) }))
 		} else {
+			opts = append(opts, vuego.WithProcessor(p))
+		}
+	}
+	ctx := context.Background()
+	var buf bytes.Buffer
+	var err error
+	switch c.Entry {
+	case "vue-render", "vue-fragment", "vue-nodes-loader", "vue-nodes-built":
+		vue := vuego.NewVue(m)
+		for _, o := range opts {
+			o(vue)
+		}
+		switch c.Entry {
+		case "vue-render":
+			err = vue.Render(&buf, "page.vuego", data)
+		case "vue-fragment":
 			err = vue.RenderFragment(&buf, "page.vuego", data)
+		case "vue-nodes-loader":
+			nodes, lerr := vuego.NewLoader(m).LoadFragment("page.vuego")
+			if lerr != nil {
+				return "", lerr
+			}
+			err = vue.RenderNodes(&buf, nodes, data)
+		default:
+			nodes, berr := builtNodes(fl["page.vuego"])
+			if berr != nil {
+				return "", berr
+			}
+			err = vue.RenderNodes(&buf, nodes, data)
 		}
 		return buf.String(), err
 	}
-	var opts []vuego.LoadOption
-	if short {
-		opts = append(opts, vuego.WithComponents())
-	}
 	tpl := vuego.NewFS(m, opts...)
-	err := tpl.Load("page.vuego").Fill(data).Render(context.Background(), &buf)
+	switch c.Entry {
+	case "file":
+		err = tpl.New().Fill(data).RenderFile(ctx, &buf, "page.vuego")
+	case "string":
+		err = tpl.New().Fill(data).RenderString(ctx, &buf, fl["page.vuego"])
+	case "byte":
+		err = tpl.New().Fill(data).RenderByte(ctx, &buf, []byte(fl["page.vuego"]))
+	case "reader":
+		err = tpl.New().Fill(data).RenderReader(ctx, &buf, strings.NewReader(fl["page.vuego"]))
+	case "view":
+		err = vuego.View(tpl, "page.vuego", data).Render(ctx, &buf)
+	case "assign":
+		t := tpl.Load("page.vuego")
+		if dm, isMap := data.(map[string]any); isMap {
+			keys := make([]string, 0, len(dm))
+			for k := range dm {
+				keys = append(keys, k)
+			}
+			sort.Strings(keys)
+			for _, k := range keys {
+				t.Assign(k, dm[k])
+			}
+		} else {
+			t.Fill(data)
+		}
+		err = t.Render(ctx, &buf)
+	default:
+		err = tpl.Load("page.vuego").Fill(data).Render(ctx, &buf)
+	}
 	return buf.String(), err
 }
 
@@ -1924,6 +2095,29 @@ func check(c Case) error {
 			return wrap(e)
 		}
 	}
+	// Includes produced by a pre-processing NodeProcessor (custom tags rewritten in place into
+	// <template include>) are includes like any other.
+	if c.Proc != "" {
+		outP, errP := renderX(c, "proc", c.Root)
+		if (errE == nil) != (errP == nil) {
+			return wrap(fmt.Errorf("custom tags rewritten by a NodeProcessor (%s) and <template include> disagree: include error=%v, processor error=%v", c.Proc, errE, errP))
+		}
+		if errE == nil {
+			a, e1 := hx.Frag(outE, hx.Collapse)
+			b, e2 := hx.Frag(outP, hx.Collapse)
+			if e1 != nil || e2 != nil {
+				return wrap(fmt.Errorf("output does not parse: %v %v", e1, e2))
+			}
+			if d := hx.Diff(a, b, hx.Options{}); d != "" {
+				return wrap(fmt.Errorf("custom tags rewritten into <template include> by a NodeProcessor (%s) render differently from <template include> written out (left=include, right=processor): %s", c.Proc, d))
+			}
+		}
+		if m.vague == "" {
+			if e := judge("include produced by a NodeProcessor ("+c.Proc+")", outP, errP, m); e != nil {
+				return wrap(e)
+			}
+		}
+	}
 	// What a failed (or cut short) render leaves behind must not show in the next one.
 	if m.vague == "" {
 		if outA, errA, ran, _ := afterFailure(c); ran {
@@ -2148,6 +2342,9 @@ func classify(c Case) (bool, []string) {
 	add(c.PageCRLF, "page-crlf")
 	add(c.After != "" && c.Root == "", "after-failure:"+c.After)
 	add(c.Entry != "", "entry:"+c.Entry)
+	add(c.Entry == "", "entry:load-fill-render")
+	add(c.Reg != "", "registration:"+c.Reg)
+	add(c.Proc != "", "node-processor:"+c.Proc)
 	add(c.Root != "", "root-data:"+c.Root)
 	add(c.Root != "" && s.reqScope > 0, "root-data-typed+required-by-includer-scope-only")
 	add(s.dashFM > 0, "frontmatter-value-with-dash-run")
@@ -2799,7 +2996,9 @@ func genCase(rec *ev.Rec, known *kf.File) func(t *rapid.T) Case {
 		// entry point and shape of the page data. A map[string]string root needs string data only:
 		// every other value becomes a string and the placements (which need the list rows and the
 		// bools ct / cf) go; repair() then rebinds the paths that no longer resolve.
-		c.Entry = rapid.SampledFrom([]string{"", "", "vue-render", "vue-fragment"}).Draw(t, "entry")
+		c.Entry = rapid.SampledFrom(entries).Draw(t, "entry")
+		c.Reg = rapid.SampledFrom([]string{"", "", "manual", "both"}).Draw(t, "reg")
+		c.Proc = rapid.SampledFrom([]string{"", "", "", "with", "register"}).Draw(t, "proc")
 		if rapid.IntRange(0, run.Pick(2, 1)).Draw(t, "afterfailure") == 0 {
 			c.After = rapid.SampledFrom(afterKinds).Draw(t, "after")
 		}
@@ -3851,6 +4050,14 @@ func TestProp(t *testing.T) {
 			if known.Open(kfNested) {
 				c.NestedShort = false
 			}
+			// entry point, registration and processor dimensions rotate over every family
+			if c.Entry == "" && c.Root == "" {
+				c.Entry = entries[i%len(entries)]
+			}
+			c.Reg = []string{"", "manual", "both"}[(i/len(entries))%3]
+			if i%4 == 1 {
+				c.Proc = []string{"with", "register"}[(i/4)%2]
+			}
 			// after-failure dimension: every third enumerated case in quick, every case in thorough
 			if every := run.Pick(3, 1); i%every == 0 {
 				c.After = afterKinds[(i/every)%len(afterKinds)]
@@ -3872,11 +4079,22 @@ func TestProp(t *testing.T) {
 	full := true
 	n1, t1 := enumFlat(run.Pick(2, 3), each("enum-flat"))
 	full = full && n1 == t1
-	n2 := enumTwice(each("enum-twice"))
+	// the two largest cores run in full in the thorough tier, every second case of them in quick
+	half := func(f func(Case) bool) func(Case) bool {
+		k := 0
+		return func(c Case) bool {
+			k++
+			if !run.Thorough() && k%2 == 0 {
+				return true
+			}
+			return f(c)
+		}
+	}
+	n2 := enumTwice(half(each("enum-twice")))
 	full = full && n2 == 2500
-	n3 := enumChain(each("enum-chain"))
+	n3 := enumChain(half(each("enum-chain")))
 	n4, skipped := enumTypes(!known.Open(kfFalsy), each("enum-types"))
-	n5 := enumPlace(each("enum-place"))
+	n5 := enumPlace(half(each("enum-place")))
 	n6 := enumPool(each("enum-pool"))
 	n7 := enumCase(each("enum-case"))
 	n8 := enumFMZero(each("enum-fmzero"))
@@ -3900,7 +4118,7 @@ func TestProp(t *testing.T) {
 		}
 	}
 	if full && !rec.Failed() {
-		rec.Exhaustive(fmt.Sprintf("flat: %d names x {5 prop modes x front-matter x includer x required} (%d); twice: same component twice, 5^4 prop modes x front-matter x includer (%d); chain: depth-3 chain, one name, 10 states per level x includer x leaf required (%d); types: 33 values (16 of them texts starting with [ or { that are not JSON) x 5 modes x 4 collisions + 7 JSON documents as static props (%d); place: 39 placements (loop, slot content, chain member) x 6 ways of passing va1 x front-matter x includer x required (%d); pool: component with 9..12 bindings followed by loop / slot placements, twice (%d); case: 5 names with upper-case letters x front-matter x includer x 4 :required spellings (%d); fmzero: 10 null / zero-ish front-matter values x 5 prop modes x includer x root template x nesting (%d); jsontpl: 8 JSON literals with 0..2 mustaches x 3 sources x includer x front-matter x nesting (%d); spell: LF/CRLF x fence blanks x prop mode (null spelling rotating) x includer x root template x page CRLF (%d); fill: 3 slot kinds (binding nothing) x 7 sets of slot templates declaring colliding variables x 4 prop modes x includer x root template x nesting (%d); dirs: 17 component folders x 3 file names x required prop provided or not x nesting (%d); braces: 6 texts before x 6 texts after a mustache (stray }} and {{) x includer x nesting (%d); blanks: 20 static / interpolated prop values with leading, trailing, inner blanks, tabs, newlines x includer x nesting x v-for (%d); literal: 9 literals in bound props x : / v-bind: x includer x required x nesting (%d, rewritten to variable paths while C05-literal-bound-prop-dropped is open)", run.Pick(2, 3), n1, n2, n3, n4, n5, n6, n7, n8, n9, n10, n11, n12, n13, n14, n15) + fmt.Sprintf("; dash: 9 front-matter values with dash runs x JSON / plain YAML x includer x CRLF x nesting (%d); root: 4 typed root data shapes x 3 entry points x 4 :required lists x prop x nesting (%d)", n16, n17))
+		rec.Exhaustive(run.Pick("quick tier: every second case of twice / chain / place; ", "") + fmt.Sprintf("flat: %d names x {5 prop modes x front-matter x includer x required} (%d); twice: same component twice, 5^4 prop modes x front-matter x includer (%d); chain: depth-3 chain, one name, 10 states per level x includer x leaf required (%d); types: 33 values (16 of them texts starting with [ or { that are not JSON) x 5 modes x 4 collisions + 7 JSON documents as static props (%d); place: 39 placements (loop, slot content, chain member) x 6 ways of passing va1 x front-matter x includer x required (%d); pool: component with 9..12 bindings followed by loop / slot placements, twice (%d); case: 5 names with upper-case letters x front-matter x includer x 4 :required spellings (%d); fmzero: 10 null / zero-ish front-matter values x 5 prop modes x includer x root template x nesting (%d); jsontpl: 8 JSON literals with 0..2 mustaches x 3 sources x includer x front-matter x nesting (%d); spell: LF/CRLF x fence blanks x prop mode (null spelling rotating) x includer x root template x page CRLF (%d); fill: 3 slot kinds (binding nothing) x 7 sets of slot templates declaring colliding variables x 4 prop modes x includer x root template x nesting (%d); dirs: 17 component folders x 3 file names x required prop provided or not x nesting (%d); braces: 6 texts before x 6 texts after a mustache (stray }} and {{) x includer x nesting (%d); blanks: 20 static / interpolated prop values with leading, trailing, inner blanks, tabs, newlines x includer x nesting x v-for (%d); literal: 9 literals in bound props x : / v-bind: x includer x required x nesting (%d, rewritten to variable paths while C05-literal-bound-prop-dropped is open)", run.Pick(2, 3), n1, n2, n3, n4, n5, n6, n7, n8, n9, n10, n11, n12, n13, n14, n15) + fmt.Sprintf("; dash: 9 front-matter values with dash runs x JSON / plain YAML x includer x CRLF x nesting (%d); root: 4 typed root data shapes x 3 entry points x 4 :required lists x prop x nesting (%d)", n16, n17))
 	}
 
 	run.Rapid(t, rec, "random", genCase(rec, known), classify, check)
